@@ -45,7 +45,7 @@ def build_cases(ctx, stream: str, n: int) -> list[dict]:
     for i in range(n):
         r = rng(f"C04:{stream}:{i}")
         if stream == "mainstream":
-            o = gs.Opts(mainstream=True, always_opid=True, max_ops=4, streaming=False, enum_params=False, formats=("date-time", "date"))
+            o = gs.Opts(mainstream=True, always_opid=True, max_ops=5, streaming=False, enum_params=False, formats=("date-time", "date"), array_params=(i % 2 == 0))
         else:
             o = gs.Opts(mainstream=True, always_opid=True, max_ops=4, cookie_params=True, multi_content=True, array_params=True,
                         enum_params=True, typed_headers=True, formats=("date-time", "date"))
@@ -71,8 +71,8 @@ def attribute(plan: dict, mism: list[str]) -> str | None:
         return "F39"
     if f["multi_content"] and f["has_query_or_header"] and ("query" in text or "headers" in text):
         return "F12"
-    if f["multi_content"] and "unexpected keyword argument" in text:
-        return "F12"
+    if f["multi_content"] and ("unexpected keyword argument" in text or "required positional argument" in text):
+        return "F12"   # the multi-media implementation method makes optional parameters required and omits cookie parameters
     return None
 
 
